@@ -51,6 +51,10 @@ MemberDomain/AddrSeparate/cov); `RoundTrip.save_congr` (congruence of `save`: ob
 header, whose segments agree up to the auxiliary fields data/isLazy/isLoaded/streamSize - `reAux`, every pass commutes
 with it - and whose sections are pairwise `OutRel` and agree on `addrSet` wherever a segment refers to them - lock-step
 ladder `stepCore_rel` .. `saveFold_rel`, `saveTail_rel` - save to the same stream); `RoundTrip.load_segs_offsetSet`.
+`save_load_save_flat_input`: the same with EVERY hypothesis on the object to be saved - `NoWrap64` and `AddrSeparate`
+of the saved object are replaced by `noWrap64InB o hd` / `addrSeparateInB o hd`, Bool functions of the input that run the
+layout (`layoutOf (preSave o)`, like `layoutNW` / `layoutDomB`) and check its result (`noWrap64_of_input`,
+`addrSeparate_of_input`: the saved object carries the layout result's header fields, C04.save_secs_hdr); both classes.
 Non-vacuity: `exFlatM` (ELF32/MSB, one PT_LOAD) and `exTwoM` (ELF64/LSB, two PT_LOADs, explicit address, NOBITS member,
 loose section), both built with the model's API, meet every hypothesis (`exFlat_resave`, `exTwo_resave`).
 WHY THE EXTRA HYPOTHESES (each excludes a case where the REAL code does not reproduce the file; replayed with
@@ -63,7 +67,7 @@ too weak as first written; `saveLoadSave_flat_statement` is the proved form.
 Stated, not proved: save . load . save for NESTED segments (the loader re-derives a nested segment's members by address
 as well; `save_congr`, `save_twice_runs` and `reload_reports_saved_nested` cover nested segments, `members_recomputed`
 does not); ResaveOkR's no-wrap clause from `layoutNW` (it is a decidable hypothesis on the input, evaluated along the
-layout).
+layout); a closed-form sufficient condition for `noWrap64InB` (e.g. "all sizes and addresses below 2^62") is not proved.
 Correspondence: family load.
 Oracle: bytes of the first save == bytes of a second save of the same object; bytes of
 save(load(save(obj))) == bytes of save(obj).  Known open finding F13 (address-less NOBITS member with
@@ -129,6 +133,9 @@ THEOREMS = ["ElfioVerif.C06.save_twice_witness",
             "ElfioVerif.Compose.save_load_save_of_members",
             "ElfioVerif.Compose.members_recomputed",
             "ElfioVerif.Compose.save_load_save_flat",
+            "ElfioVerif.Compose.noWrap64_of_input",
+            "ElfioVerif.Compose.addrSeparate_of_input",
+            "ElfioVerif.Compose.save_load_save_flat_input",
             "ElfioVerif.Compose.saveLoadSave_flat_statement",
             "ElfioVerif.Compose.exFlat_resave",
             "ElfioVerif.Compose.exTwo_resave",
